@@ -458,6 +458,38 @@ def pytype_of(v: Any) -> str:
 
 
 _GEN_MEMO: dict = {}
+_LOCALS_MEMO: dict = {}
+
+
+def _local_names(fn: ast.FunctionDef) -> frozenset:
+    """Names that are local to ``fn`` because the function binds them somewhere (assignment, loop or
+    with target, import, nested def, except-as) and does not declare them global / nonlocal."""
+    hit = _LOCALS_MEMO.get(id(fn))
+    if hit is not None and hit[0] is fn:
+        return hit[1]
+    names, declared = set(), set()
+    todo = list(fn.body)
+    while todo:
+        n = todo.pop()
+        if isinstance(n, (ast.FunctionDef, ast.AsyncFunctionDef, ast.ClassDef)):
+            names.add(n.name)
+            continue
+        if isinstance(n, ast.Lambda):
+            continue
+        if isinstance(n, (ast.ListComp, ast.SetComp, ast.DictComp, ast.GeneratorExp)):
+            continue  # comprehension targets live in their own scope
+        if isinstance(n, ast.Name) and isinstance(n.ctx, (ast.Store, ast.Del)):
+            names.add(n.id)
+        elif isinstance(n, (ast.Global, ast.Nonlocal)):
+            declared |= set(n.names)
+        elif isinstance(n, ast.ExceptHandler) and n.name:
+            names.add(n.name)
+        elif isinstance(n, (ast.Import, ast.ImportFrom)):
+            names |= {(a.asname or a.name).split(".")[0] for a in n.names}
+        todo.extend(ast.iter_child_nodes(n))
+    out = frozenset(names - declared)
+    _LOCALS_MEMO[id(fn)] = (fn, out)
+    return out
 
 
 def _is_generator(fn: ast.FunctionDef) -> bool:
@@ -806,6 +838,12 @@ class Frame:
     def e_Name(self, n: ast.Name) -> Any:
         if n.id in self.env:
             return self.env[n.id]
+        if self.fn is not None and n.id in _local_names(self.fn):
+            # assigned somewhere in this function, so local to it - but not bound on this path
+            raise PyExc("UnboundLocalError", (f"cannot access local variable '{n.id}' where it is not associated with a value",), n)
+        mi = self.I.repo.modules.get(self.mod)
+        if mi is not None and f"global:{self.mod}.{n.id}" not in self.I.stubs and n.id not in mi.functions and n.id not in mi.classes and n.id not in mi.assigns and n.id not in mi.imports and not hasattr(__import__("builtins"), n.id) and n.id not in ("__file__", "__name__"):
+            raise PyExc("NameError", (f"name '{n.id}' is not defined",), n)
         return self.global_name(n.id, n)
 
     def global_name(self, name: str, node: ast.AST | None = None) -> Any:
@@ -1463,6 +1501,8 @@ class Frame:
             return call_builtin(self, FuncRef(None, builtin=f.names[0]), args, kwargs, node)
         if callable(f) and not isinstance(f, (SObj, Inst)):
             return f(self, args, kwargs)  # client stub object
+        if f is None or isinstance(f, (str, int, float, list, dict, tuple, SStr, SNum)):
+            raise PyExc("TypeError", (f"'{pytype_of(f)}' object is not callable",), node)
         raise AnalysisError(f"call of {f!r} ({self.qual})")
 
     def to_str(self, v: Any) -> Any:
